@@ -176,6 +176,11 @@ func (r *Run) calleeShortName(fr *Frame, cc *ssa.CallCommon) string {
 	if key := r.fieldFuncKey(cc.Value); key != "" {
 		return key[strings.LastIndex(key, ".")+1:]
 	}
+	if v, ok := cc.Value.(interface{ Parent() *ssa.Function }); ok && v.Parent() != nil {
+		if key := paramFuncKey(v.Parent(), cc.Value); key != "" && r.specs.Funcs[key] != nil {
+			return key[strings.LastIndex(key, ".")+1:]
+		}
+	}
 	return "dyn"
 }
 
@@ -240,6 +245,31 @@ func (r *Run) fieldFuncKey(v ssa.Value) string {
 	pt := fa.X.Type().Underlying().(*types.Pointer)
 	st := pt.Elem().Underlying().(*types.Struct)
 	return "field:" + structName(pt.Elem()) + "." + st.Field(fa.Field).Name()
+}
+
+// paramFuncKey: the callee is a func-typed parameter of fn, or a variable fn captured -> "param:<fn>.<name>".
+func paramFuncKey(fn *ssa.Function, v ssa.Value) string {
+	if p, ok := v.(*ssa.Parameter); ok {
+		return "param:" + funcKey(fn) + "." + p.Name()
+	}
+	u, ok := v.(*ssa.UnOp)
+	if !ok || u.Op != token.MUL {
+		return ""
+	}
+	switch x := u.X.(type) {
+	case *ssa.FreeVar:
+		return "param:" + funcKey(fn) + "." + x.Name()
+	case *ssa.Alloc:
+		for _, ref := range *x.Referrers() {
+			if s, ok := ref.(*ssa.Store); ok && s.Addr == x {
+				if p, ok := s.Val.(*ssa.Parameter); ok {
+					return "param:" + funcKey(fn) + "." + p.Name()
+				}
+				return ""
+			}
+		}
+	}
+	return ""
 }
 
 // execCall dispatches a call. deferred != nil means the operands were captured at the defer statement.
@@ -342,6 +372,12 @@ func (r *Run) execCall(fr *Frame, st *State, reach Term, cc *ssa.CallCommon, ins
 	if key == "" && fnVal.Kind == VTerm && strings.HasPrefix(fnVal.Src, "F.") {
 		// the function value was copied from a field into a local first
 		key = "field:" + strings.TrimPrefix(fnVal.Src, "F.")
+	}
+	if key == "" {
+		// a func-typed parameter (or captured parameter of the enclosing function) with a declared contract
+		if k := paramFuncKey(fr.fn, cc.Value); k != "" && r.specs.Funcs[k] != nil {
+			key = k
+		}
 	}
 	if key != "" {
 		if sp := r.specs.Funcs[key]; sp != nil {
